@@ -25,6 +25,7 @@ def plan(tier, seed):
     n = 3500 if tier == 'quick' else 60000
     for i in range(7 if tier == 'quick' else 24):
         specs.append({'part': 'deep', 'n': n})
+    specs.append({'part': 'interleave', 'n': 60 if tier == 'quick' else 1500})
     return specs
 
 
@@ -103,6 +104,32 @@ def run_shard(spec, ctx):
                         ctx.fail('parent_composition', {'c': y, 'a': a, 'a2': a2})
             ctx.count('level_pairs')
         ctx.sample({'level': b, 'cells': len(Lb), 'example_child_run': Lb[:4]})
+        return
+    if spec['part'] == 'interleave':
+        # a second hierarchy call on another cell injected at every LINE event of a hierarchy call (sys.monitoring injector)
+        import os
+        from rv import sched
+        inj = sched.Injector(os.path.dirname(os.path.realpath(a5.__file__)))
+        for _ in range(spec['n']):
+            r1, r2 = ctx.rnd.randint(0, 28), ctx.rnd.randint(0, 28)
+            c1, c2 = gen.random_cell(ctx.rnd, a5, r1), gen.random_cell(ctx.rnd, a5, r2)
+            fns = {'children': (lambda: a5.cell_to_children(c1, min(29, r1 + 1))), 'parent': (lambda: a5.cell_to_parent(c1, max(-1, r1 - 2))),
+                   'resolution': (lambda: a5.get_resolution(c1))}
+            B = ctx.rnd.choice([lambda: a5.cell_to_children(c2, min(29, r2 + 2)), lambda: a5.cell_to_parent(c2), lambda: a5.get_resolution(c2),
+                                lambda: a5.cell_to_children(c1, min(29, r1 + 1)), lambda: a5.cell_to_parent(c1, max(-1, r1 - 1))])
+            wantB = B()
+            for name, A in fns.items():
+                want = A()
+                for k in range(1, inj.events_in(A, 'line') + 1):
+                    st, res = inj.run(A, B, k, 'line')
+                    ctx.case(('interleave', c1, c2, name, k))
+                    ctx.count('hierarchy_interleavings')
+                    if st != 'ok' or res != want or inj.bexc is not None or (inj.where is not None and inj.bres != wantB):
+                        ctx.fail('wrong_when_interleaved', {'c': c1, 'other': c2, 'fn': name, 'k': k}, got=repr(res)[:200])
+                    if A() != want:
+                        ctx.fail('wrong_after_interleaving', {'c': c1, 'other': c2, 'fn': name, 'k': k})
+        inj.close()
+        ctx.sample({'interleaved': [c1, c2]})
         return
     if spec['part'] == 'ladder':
         # large fan-outs (up to 4^10 per cell and beyond): count, distinctness, order, contiguity and parentage of the whole run
@@ -194,6 +221,24 @@ def run_shard(spec, ctx):
                     ctx.fail('range_vs_descendant', case, y=y, in_run=inrun, is_descendant=isdesc)
                 if isdesc and y not in ch:
                     ctx.fail('descendant_missing', case, y=y)
+        # hostile caller: scramble the lists the hierarchy handed out, then ask again
+        if ch and n % 3 == 0:
+            keep = list(ch)
+            ch.reverse()
+            ch.append(-1)
+            del ch[:2]
+            r0 = a5.get_res0_cells()
+            keep0 = list(r0)
+            r0.pop()
+            r0.sort(reverse=True)
+            try:
+                if a5.cell_to_children(c, b) != keep:
+                    ctx.fail('children_depend_on_mutated_earlier_result', case)
+                if a5.get_res0_cells() != keep0 or a5.cell_to_children(0, 0) != keep0:
+                    ctx.fail('res0_cells_depend_on_mutated_earlier_result', case)
+            except Exception as e:
+                ctx.fail('children_raises', case, exc=repr(e))
+            ctx.count('scramble_and_repeat')
         # parents
         try:
             pa = a5.cell_to_parent(c, a)
@@ -249,6 +294,9 @@ def finalize(m, tier):
 def replay(f, ctx):
     import a5
     c = f['case']
+    if f['kind'] in ('wrong_when_interleaved', 'wrong_after_interleaving'):
+        run_shard({'part': 'interleave', 'n': 40, 'seed': 1, 'shard': 0}, ctx)
+        return
     if c.get('ladder'):
         from rv.run import Recorder
         run_shard({'part': 'ladder', 'rc': c['a'], 'b': c['b']}, ctx)
